@@ -33,6 +33,9 @@ fn call_forms(n: &str) -> Vec<(&'static str, String, Ast)> {
         ("n x int", format!("{} 1", n), call(n, one())),
         ("n(x) string", format!("{}(\"ab\")", n), call(n, s())),
         ("n x string", format!("{} \"ab\"", n), call(n, s())),
+        ("n\"ab\" (no gap)", format!("{}\"ab\"", n), call(n, s())),
+        ("n x string,tail", format!("{} \"ab\" + \"c\"", n), Ast::Bin(crate::refmodel::ops::BinOp::Add, Box::new(call(n, s())), Box::new(lit(RV::Str("c".into()))))),
+        ("-n x", format!("-{} 1", n), Ast::Pre(crate::refmodel::ops::UnOp::Neg, Box::new(call(n, one())))),
         ("n x boolean", format!("{} true", n), call(n, lit(RV::Bool(true)))),
         ("n x float", format!("{} 2.5", n), call(n, lit(RV::Float(2.5)))),
         ("n x variable", format!("{} {}", n, n), call(n, Ast::Var(n.to_string()))),
@@ -327,7 +330,7 @@ pub fn run(cfg: &Cfg) -> Report {
     Report {
         property: ID,
         level: "model_checking",
-        rule: format!("for each of 52 names (49 builtins, foo, math::foo, str::nothing): every history of length <= {depth} over {{disable builtins, enable, clone-and-continue, clone_from into a used context, clear_functions, clear_variables, define user function n, define failing user function n, bind variable n}} from an empty HashMapContext (contains the complete switch x user-function x variable x {{as built, clone, cleared}} matrix), plus EmptyContext and EmptyContextWithBuiltinFunctions; in every configuration reached, 15 call forms, each evaluated through `Node::eval_with_context` and (HashMapContext) through `Node::eval_with_context_mut` on a clone (`n(x)`, `n x` with int and string, `n()`, `n(x, y)`, `n(x, y, z)`, `typeof n x`, `n typeof x`, bare `n`, `n + 1`); oracle: reference resolution (user function first with the documented argument shape, recorded; else builtin table of C10 if enabled; else unknown function) . States = configurations, transitions = evaluations. Non-trivial = configurations reached by >= 2 operations"),
+        rule: format!("for each of 52 names (49 builtins, foo, math::foo, str::nothing): every history of length <= {depth} over {{disable builtins, enable, clone-and-continue, clone_from into a used context, clear_functions, clear_variables, define user function n, define failing user function n, bind variable n}} from an empty HashMapContext (contains the complete switch x user-function x variable x {{as built, clone, cleared}} matrix), plus EmptyContext and EmptyContextWithBuiltinFunctions; in every configuration reached, 18 call forms, each evaluated through `Node::eval_with_context` and (HashMapContext) through `Node::eval_with_context_mut` on a clone (`n(x)`, `n x` with int and string (also without a gap before the quote, followed by an operator, and under a prefix minus), `n()`, `n(x, y)`, `n(x, y, z)`, `typeof n x`, `n typeof x`, bare `n`, `n + 1`); oracle: reference resolution (user function first with the documented argument shape, recorded; else builtin table of C10 if enabled; else unknown function) . States = configurations, transitions = evaluations. Non-trivial = configurations reached by >= 2 operations"),
         nontrivial_set: "counter:nontrivial-distinct",
         exhaustive: true,
         bound_completed: format!("histories of length {depth}"),
